@@ -88,7 +88,11 @@ type c12Sel struct {
 
 func c12Selections(r *Rng) c12Sel {
 	bin := func(p string, _ int) bool { return strings.HasSuffix(p, ".bin") }
-	switch r.Intn(6) {
+	switch r.Intn(7) {
+	case 6:
+		// an exclude pattern without a slash is compared with the NAME OF A FILE: a directory that happens to be
+		// called store.dat is not excluded by `*.dat`, and the *.bin files in it are selected
+		return c12Sel{[]string{"--everything", "--include=*.bin", "--exclude=*.dat"}, bin, "*.bin minus *.dat (a directory is named store.dat)"}
 	case 0:
 		return c12Sel{[]string{"--everything", "--include=*.bin"}, bin, "*.bin"}
 	case 1:
@@ -146,7 +150,7 @@ func c12Scenario(c *Ctx, idx int, r *Rng) (mline, mimpl, mcase string) {
 		w.write("dir/.gitattributes", []byte("*.txt text\n"))
 		log("nested .gitattributes")
 	}
-	files := []string{"a.bin", "b.bin", "dir/c.bin", "d.dat", "dir/sub/e.dat", "notes.txt", "tool.bin"}
+	files := []string{"a.bin", "b.bin", "dir/c.bin", "d.dat", "dir/sub/e.dat", "notes.txt", "tool.bin", "store.dat/inner.bin", "dir/store.dat/deep/more.bin"}
 	write := func(f string) {
 		w.write(f, r.Bytes(Pick(r, []int{5, 300, 2500, 6000})))
 	}
